@@ -122,10 +122,18 @@ def nontrivial(case):
     return kinds >= {"loss", "gain", "neutral"} and sexrow
 
 
+def cn_as_float(case):
+    """a third of the cn-carrying tables hold their cn as float64 (a pure function of the case)"""
+    import json
+    import zlib
+
+    return zlib.crc32(("cnf" + json.dumps(case, sort_keys=True, default=str)).encode()) % 3 == 0
+
+
 def classify(case):
     if case["kind"] == "multi":
         return ["multi", "fault:" + case["fault"], "n=%d" % len(case["samples"])]
-    return ["bedvcf", "cn" if case["with_cn"] else "nocn", "par:" + str(case["par"]), "label:" + case["label"],
+    return ["bedvcf", ("cn-float" if cn_as_float(case) else "cn") if case["with_cn"] else "nocn", "par:" + str(case["par"]), "label:" + case["label"],
             "ploidy:%d" % case["ploidy"]]
 
 
@@ -160,6 +168,8 @@ def _build_segments(case):
     df = pd.DataFrame([r for r, _ in recs])
     from vk import gen
 
+    if case["with_cn"] and cn_as_float(case):
+        df["cn"] = df["cn"].astype(float)  # what `call --filter cn` leaves: integer-valued floats
     gen.relabel(df, gen.spec_for(case))
     return CopyNumArray(df, {"sample_id": "SAMPLE"}), recs
 
